@@ -206,6 +206,71 @@ fn whitener_model(r: &mut Runner) {
 use linfa_preprocessing::tf_idf_vectorization::{FittedTfIdfVectorizer, TfIdfMethod, TfIdfVectorizer};
 use linfa_preprocessing::{CountVectorizer, CountVectorizerParams, CountVectorizerValidParams, Tokenizer};
 
+/// the training / query documents as small temporary files (for the file-based entry points
+/// fit_files / transform_files); the directory is removed when the value is dropped
+pub struct TempDocs {
+    dir: std::path::PathBuf,
+    pub train: Vec<std::path::PathBuf>,
+    pub query: Vec<std::path::PathBuf>,
+}
+impl TempDocs {
+    pub fn new() -> TempDocs {
+        static N: std::sync::atomic::AtomicU64 = std::sync::atomic::AtomicU64::new(0);
+        let dir = std::env::temp_dir().join(format!("c19-docs-{}-{}", std::process::id(), N.fetch_add(1, std::sync::atomic::Ordering::Relaxed)));
+        std::fs::create_dir_all(&dir).expect("temp dir");
+        let write = |name: &str, all: &[&str]| -> Vec<std::path::PathBuf> {
+            all.iter()
+                .enumerate()
+                .map(|(i, d)| {
+                    let p = dir.join(format!("{}{}.txt", name, i));
+                    std::fs::write(&p, d.as_bytes()).expect("temp file");
+                    p
+                })
+                .collect()
+        };
+        let train = write("train", &DOCS);
+        let query = write("query", &QUERY_DOCS);
+        TempDocs { dir, train, query }
+    }
+}
+impl Drop for TempDocs {
+    fn drop(&mut self) {
+        let _ = std::fs::remove_dir_all(&self.dir);
+    }
+}
+fn utf8() -> encoding::EncodingRef {
+    encoding::all::UTF_8
+}
+
+/// counts per word (columns ordered by word) of a sparse count / tf-idf matrix
+fn canonical_columns<T: Clone>(vocab: &[String], dense: &ndarray::Array2<T>) -> Vec<T> {
+    let mut order: Vec<usize> = (0..vocab.len()).collect();
+    order.sort_by(|&a, &b| vocab[a].cmp(&vocab[b]));
+    let mut v = Vec::new();
+    for &j in &order {
+        v.extend(dense.column(j).iter().cloned());
+    }
+    v
+}
+
+/// file-based entry points of a fitted count vectoriser
+fn cv_files_obs(ob: &mut Ob, prefix: &str, cv: &CountVectorizer, files: &TempDocs) {
+    for (name, paths) in [("train", &files.train), ("query", &files.query)] {
+        match cv.transform_files(paths, utf8(), encoding::DecoderTrap::Strict) {
+            Ok(m) => ob.us(&format!("{}transform_files.{}", prefix, name), canonical_columns(cv.vocabulary(), &m.to_dense())),
+            Err(e) => ob.st(&format!("{}transform_files.{}.error", prefix, name), format!("{:?}", e)),
+        };
+    }
+}
+fn tfidf_files_obs(ob: &mut Ob, prefix: &str, m: &FittedTfIdfVectorizer, files: &TempDocs) {
+    for (name, paths) in [("train", &files.train), ("query", &files.query)] {
+        match m.transform_files(paths, utf8(), encoding::DecoderTrap::Strict) {
+            Ok(x) => ob.fl(&format!("{}transform_files.{}", prefix, name), canonical_columns(m.vocabulary(), &x.to_dense())),
+            Err(e) => ob.st(&format!("{}transform_files.{}.error", prefix, name), format!("{:?}", e)),
+        };
+    }
+}
+
 fn docs() -> Array1<&'static str> {
     Array1::from_iter(DOCS.iter().cloned())
 }
@@ -313,6 +378,18 @@ fn cv_params(r: &mut Runner) {
                         ob.st("refit.error", e.to_string());
                     }
                 };
+                {
+                    let files = TempDocs::new();
+                    match p.fit_files(&files.train, utf8(), encoding::DecoderTrap::Strict) {
+                        Ok(cv) => {
+                            cv_canonical_obs(&mut ob, "refit_files.", &cv);
+                            cv_files_obs(&mut ob, "refit_files.", &cv, &files);
+                        }
+                        Err(e) => {
+                            ob.st("refit_files.error", e.to_string());
+                        }
+                    };
+                }
                 match p.fit_vocabulary(&["two", "three", "one two", "zebra"]) {
                     Ok(cv) => cv_canonical_obs(&mut ob, "refit_vocabulary.", &cv),
                     Err(e) => {
@@ -423,6 +500,18 @@ fn cv_valid_params(r: &mut Runner) {
                         ob.st("refit.error", e.to_string());
                     }
                 };
+                {
+                    let files = TempDocs::new();
+                    match v.fit_files(&files.train, utf8(), encoding::DecoderTrap::Strict) {
+                        Ok(cv) => {
+                            cv_canonical_obs(&mut ob, "refit_files.", &cv);
+                            cv_files_obs(&mut ob, "refit_files.", &cv, &files);
+                        }
+                        Err(e) => {
+                            ob.st("refit_files.error", e.to_string());
+                        }
+                    };
+                }
                 ob.done()
             };
             // checked parameters hold the compiled regex: Debug shows it and must agree (recompiled on load)
@@ -482,6 +571,7 @@ fn cv_model(r: &mut Runner) {
             let obs = |m: &CountVectorizer| {
                 let mut ob = Ob::new();
                 cv_exact_obs(&mut ob, "", m);
+                cv_files_obs(&mut ob, "", m, &TempDocs::new());
                 ob.done()
             };
             round_trip(o, &Spec::plain(&obs).with_maps().opaque_debug(), &m);
@@ -535,12 +625,22 @@ fn cv_model(r: &mut Runner) {
         }
         // every generation history of length <= 4 (quick) / 5 (thorough) over {round trip, repair, use}
         let depth = if std::env::var("VERIF_TIER").as_deref() == Ok("thorough") { 5 } else { 4 };
+        let files = TempDocs::new();
         let spec = Repairable::<CountVectorizer> {
             repair: &|cv: &mut CountVectorizer| cv.force_tokenizer_function_redefinition(space_tokenizer),
+            // both entry points: in-memory transform and transform_files; they must refuse together
+            // (unrepaired generation) or answer together (function attached)
             use_it: &|cv: &CountVectorizer| {
-                cv.transform(&qdocs()).map_err(|e| format!("{:?}", e))?;
+                let mem = cv.transform(&qdocs()).map(|_| ()).map_err(|e| format!("{:?}", e));
+                let file = cv.transform_files(&files.query, utf8(), encoding::DecoderTrap::Strict).map(|_| ()).map_err(|e| format!("{:?}", e));
+                match (&mem, &file) {
+                    (Err(a), Err(b)) if a == b => return Err(a.clone()),
+                    _ => {}
+                }
                 let mut ob = Ob::new();
+                ob.st("entry_points", format!("transform: {:?}, transform_files: {:?}", mem, file));
                 cv_canonical_obs(&mut ob, "", cv);
+                cv_files_obs(&mut ob, "", cv, &files);
                 Ok(ob.done())
             },
             // error KIND compared through Debug (by-catch: the Display texts of TokenizerNotSet and FlippedMinMaxRange are swapped in linfa-preprocessing/src/error.rs:16-19)
@@ -622,6 +722,18 @@ fn tfidf_params(r: &mut Runner) {
         r.inst(n, |o| {
             let obs = |p: &TfIdfVectorizer| {
                 let mut ob = Ob::new();
+                {
+                    let files = TempDocs::new();
+                    match p.fit_files(&files.train, utf8(), encoding::DecoderTrap::Strict) {
+                        Ok(m) => {
+                            tfidf_canonical_obs(&mut ob, "refit_files.", &m);
+                            tfidf_files_obs(&mut ob, "refit_files.", &m, &files);
+                        }
+                        Err(e) => {
+                            ob.st("refit_files.error", e.to_string());
+                        }
+                    };
+                }
                 match p.fit(&docs()) {
                     Ok(m) => {
                         ob.st("check_verdict", "fit ok");
@@ -653,6 +765,7 @@ fn tfidf_model(r: &mut Runner) {
             let obs = |m: &FittedTfIdfVectorizer| {
                 let mut ob = Ob::new();
                 tfidf_exact_obs(&mut ob, "", m);
+                tfidf_files_obs(&mut ob, "", m, &TempDocs::new());
                 ob.done()
             };
             round_trip(o, &Spec::plain(&obs).with_maps().opaque_debug(), &m);
@@ -693,12 +806,20 @@ fn tfidf_model(r: &mut Runner) {
             }
         }
         let depth = if std::env::var("VERIF_TIER").as_deref() == Ok("thorough") { 5 } else { 4 };
+        let files = TempDocs::new();
         let spec = Repairable::<FittedTfIdfVectorizer> {
             repair: &|v: &mut FittedTfIdfVectorizer| v.force_tokenizer_redefinition(space_tokenizer),
             use_it: &|v: &FittedTfIdfVectorizer| {
-                v.transform(&qdocs()).map_err(|e| format!("{:?}", e))?;
+                let mem = v.transform(&qdocs()).map(|_| ()).map_err(|e| format!("{:?}", e));
+                let file = v.transform_files(&files.query, utf8(), encoding::DecoderTrap::Strict).map(|_| ()).map_err(|e| format!("{:?}", e));
+                match (&mem, &file) {
+                    (Err(a), Err(b)) if a == b => return Err(a.clone()),
+                    _ => {}
+                }
                 let mut ob = Ob::new();
+                ob.st("entry_points", format!("transform: {:?}, transform_files: {:?}", mem, file));
                 tfidf_canonical_obs(&mut ob, "", v);
+                tfidf_files_obs(&mut ob, "", v, &files);
                 Ok(ob.done())
             },
             // error KIND compared through Debug (by-catch: the Display texts of TokenizerNotSet and FlippedMinMaxRange are swapped in linfa-preprocessing/src/error.rs:16-19)
